@@ -9,7 +9,7 @@ HARNESS="${VERIF_HARNESS:-$(cd "$(dirname "$0")/../harness" && pwd)}"
 CRATE="$HARNESS/vmiri-vm"
 export CARGO_NET_OFFLINE=true
 export CARGO_TARGET_DIR="$CRATE/target"
-if [ "$TIER" = "thorough" ]; then SHARDS=16; PER=40; else SHARDS=8; PER=4; fi
+if [ "$TIER" = "thorough" ]; then SHARDS=16; PER=16; else SHARDS=8; PER=4; fi
 LOGDIR="$OUT/miri-vm-logs"; mkdir -p "$LOGDIR"
 emit() { # stage evaluations violations_json inconclusive_json observed_json
 python3 - "$OUT/miri-vm.json" "$@" <<'PY'
